@@ -367,11 +367,20 @@ def slice_bounds(I, sl, length):
             raise Unsupported("slice step")
 
     def clip(v, default):
+        # decided with the path condition (forking when undetermined) rather than encoded with
+        # nested If terms: keeps sequence terms small enough for the seq solvers
         if isinstance(v, SNoneT):
             return default
         t = as_int(v)
-        t = z3.If(t < 0, t + length, t)
-        return z3.If(t < 0, z3.IntVal(0), z3.If(t > length, length, t))
+        c = I.ctx
+        if c.branch(t < 0):
+            t = t + length
+            if c.branch(t < 0):
+                return z3.IntVal(0)
+            return t
+        if c.branch(t > length):
+            return length
+        return t
 
     lo = clip(sl.lo, z3.IntVal(0))
     hi = clip(sl.hi, length)
